@@ -209,3 +209,22 @@ LITERALS_Q = dict(scenario='literals', args=dict(policy=stmt_profile([['Decl:Var
                                                  free_strings=(0, 300), enabled=(True, False)),
                   label='var initialisers / statements / object values / call and new arguments holding string literals of symbolic length 0..300 (callee names in {require, RegExp, foo}), top level, block and function body; collection on and off')
 PLANS['C14'] = {'quick': [LITERALS_Q], 'thorough': [LITERALS_Q]}
+
+
+# source-map discovery
+from scenario import ExtractScenario
+
+_prev_make3 = make_scenario
+
+
+def make_scenario(name, args):
+    if name == 'extract':
+        return ExtractScenario(args.get('max_buckets', 2), args.get('per_bucket', (1, 2)), args.get('texts'))
+    return _prev_make3(name, args)
+
+
+EXTRACT_T = dict(scenario='extract', args=dict(max_buckets=2), label='extract_source_map (thorough): 1-2 comments per bucket, 5 texts')
+EXTRACT_Q = dict(scenario='extract', args=dict(max_buckets=2, per_bucket=(1,)), label='extract_source_map: file name in {"", a.js, /d/a.js, /, d/} x 0-2 trailing-comment buckets x 1-2 comments (5 texts) x decode_data_url/open/decode each returning any of their results; two DashMap iteration orders')
+PLANS['C13'] = {'quick': [EXTRACT_Q, ALL_D2, PROTO_Q, PLACEMENT_Q], 'thorough': [EXTRACT_T, ALL_D2, PROTO_T, PLACEMENT_Q, OPERANDS_Q]}
+PLANS['C10'] = {'quick': [EXTRACT_Q], 'thorough': [EXTRACT_T]}
+PLANS['C16'] = {'quick': [EXTRACT_Q], 'thorough': [EXTRACT_T]}
